@@ -136,16 +136,19 @@ def decodeUrlQuote (bs : Bytes) : Str :=
   | some s => s
   | none => decodeQuoteFuel (bs.length + 1) bs
 
+/-- one maximal ASCII run (collected in reverse): percent-decode, then decode -/
+def flushRun (acc : Bytes) : Str :=
+  if acc.isEmpty then [] else decodeUrlQuote (unquoteBytes acc.reverse)
+
+def unquoteGo : Bytes → Str → Str
+  | acc, [] => flushRun acc
+  | acc, c :: t =>
+    if c.toNat < 128 then unquoteGo (UInt8.ofNat c.toNat :: acc) t
+    else flushRun acc ++ c :: unquoteGo [] t
+
 /-- `unquote(s, "utf-8", "werkzeug.url_quote")` for `str`: maximal ASCII runs are percent-decoded
 and decoded, other characters pass through -/
-def unquote (s : Str) : Str :=
-  let flush (acc : Bytes) : Str := if acc.isEmpty then [] else decodeUrlQuote (unquoteBytes acc.reverse)
-  let rec go : Bytes → Str → Str
-    | acc, [] => flush acc
-    | acc, c :: t =>
-      if c.toNat < 128 then go (UInt8.ofNat c.toNat :: acc) t
-      else flush acc ++ c :: go [] t
-  go [] s
+def unquote (s : Str) : Str := unquoteGo [] s
 
 /-- `str.split(sep)` -/
 def splitOn (sep : Char) : Str → List Str
@@ -159,21 +162,20 @@ def splitOn (sep : Char) : Str → List Str
 
 def plusToSpace (s : Str) : Str := s.map fun c => if c == '+' then ' ' else c
 
+/-- one `name=value` piece of `parse_qsl` (`none` = skipped) -/
+def parsePair (keepBlank : Bool) (nv : Str) : Option (Str × Str) :=
+  if nv.isEmpty then none
+  else
+    match nv.dropWhile (· != '=') with
+    | [] => if keepBlank then some (unquote (plusToSpace (nv.takeWhile (· != '='))), []) else none
+    | _ :: value =>
+      if !value.isEmpty || keepBlank then
+        some (unquote (plusToSpace (nv.takeWhile (· != '='))), unquote (plusToSpace value))
+      else none
+
 /-- `parse_qsl(qs, keep_blank_values=keepBlank, errors="werkzeug.url_quote")` for `str` -/
 def parseQsl (keepBlank : Bool) (qs : Str) : List (Str × Str) :=
-  if qs.isEmpty then []
-  else
-    (splitOn '&' qs).filterMap fun nv =>
-      if nv.isEmpty then none
-      else
-        let name := nv.takeWhile (· != '=')
-        let rest := nv.dropWhile (· != '=')
-        match rest with
-        | [] => if keepBlank then some (unquote (plusToSpace name), []) else none
-        | _ :: value =>
-          if !value.isEmpty || keepBlank then
-            some (unquote (plusToSpace name), unquote (plusToSpace value))
-          else none
+  if qs.isEmpty then [] else (splitOn '&' qs).filterMap (parsePair keepBlank)
 
 /-- ASCII bytes as text -/
 def asciiStr (bs : Bytes) : Str := bs.map fun b => Char.ofNat b.toNat
@@ -200,14 +202,18 @@ def boundedLoop : Nat → Nat → List Nat → Bytes → Bytes → Except String
       if chunk.isEmpty then (.ok held, held.length)
       else boundedLoop fuel (remaining - chunk.length) sched' body' (held ++ chunk)
 
+/-- `content_length is not None and content_length > max_form_memory_size` -/
+def declaredTooLarge (m : Nat) : Option Nat → Bool
+  | some n => decide (n > m)
+  | none => false
+
 /-- the bytes `_parse_urlencoded` hands to `parse_qsl`, and how many bytes it took from the stream -/
 def urlencodedRead (maxMem : Option Nat) (contentLength : Option Nat) (sched : List Nat) (body : Bytes) :
     Except String Bytes × Nat :=
   match maxMem with
   | none => (.ok body, body.length)
   | some m =>
-    if (match contentLength with | some cl => decide (cl > m) | none => false) then
-      (.error "RequestEntityTooLarge", 0)
+    if declaredTooLarge m contentLength then (.error "RequestEntityTooLarge", 0)
     else boundedLoop (m + 2) (m + 1) sched body []
 
 /-- `FormDataParser(max_form_memory_size=maxMem, silent=False)._parse_urlencoded` -/
